@@ -29,6 +29,13 @@ def transportFitness (c : Ctx) (jobs : List Act) : Int :=
 def fitnessOf (c : Ctx) (jobs : List Act) (u : Int) : List Int :=
   [u, if jobs.isEmpty then 0 else 1, transportFitness c jobs]
 
+/-- MODEL of `MaximizeTotalValueObjective::estimate` (route level): minus the value of the job -/
+def valueQuote (v : Int) : Int := -v
+
+/-- SPEC: objective value of the maximize-value layer: minus the total value of the served jobs
+    (`vals` = values of the jobs in the tour, in tour order) -/
+def valueFitness (vals : List Int) : Int := -(vals.sum)
+
 /-- waiting anywhere in the tour -/
 def hasWaiting (t : Nat → Nat → Int) (v : Veh) (jobs : List Act) : Bool :=
   let sc := sched t (v.full jobs) v.startLoc v.dep
